@@ -71,6 +71,7 @@ def run(ck, F):
     tables = set()
     for f in sorted(getters, key=lambda f: f['id']):
         tables.update(K.factory(f))
+    K.finish_cover()
     for r in (K.R_diag, K.R_cover, K.R_lex):
         ck.rules[r]['floor'] = 18
     ck.rules[K.R_atom]['floor'] = 2
